@@ -382,4 +382,27 @@ Proof.
   exists (S (Z.to_nat (D + 1))), tr, sf. split; [exact Es|]. split; [exact Hend|].
   destruct (at_time_set_exact D _ _ _ Es) as [Ha Hb]. rewrite Hend in Hb. split; assumption.
 Qed.
+(* a pause anywhere + a NEW simulator object (rule index recomputed): the continued part still shows, at every solved step, the command of the
+   latest control reached, lies after the pause, and steps over no instant at which a control changes a status *)
+Lemma restart_sinv s : sinv s -> sinv (restart_state gs s).
+Proof.
+  destruct s as [[[[first prev] t] ri] st]. unfold sinv, restart_state. intros (Hri & Hp & Ht & Hfirst & HS). simpl rule_step.
+  split; [|split; [exact Hp|split; [exact Ht|split; [discriminate|exact HS]]]].
+  assert (-1 <= prev / rs); [|lia]. apply Z.div_le_lower_bound; lia.
+Qed.
+Theorem at_time_set_survives_pause D1 D' f1 tr1 s1 f2 tr2 s2 :
+  steps f1 gs D1 (init_state gs) = Some (tr1, s1) -> steps f2 gs D' (restart_state gs s1) = Some (tr2, s2) ->
+  (forall e, In e (tr1 ++ tr2) -> is_S (fst e) (snd e)) /\ (forall e, In e tr2 -> s_prev s1 < fst e) /\
+  (forall a, In a cs -> s_prev s1 < a_thr a <= s_prev s2 ->
+     In (a_thr a) (map fst tr2) \/ exists st, (st = s_st s1 \/ In st (map snd tr2)) /\ is_S (a_thr a) st).
+Proof.
+  intros H1 H2. destruct (set_steps D1 _ _ _ _ sinv_init H1) as (Hs1 & Hall1 & _).
+  assert (Hp : s_prev (restart_state gs s1) = s_prev s1) by (destruct s1 as [[[[? ?] ?] ?] ?]; reflexivity).
+  assert (Hq : s_st (restart_state gs s1) = s_st s1) by (destruct s1 as [[[[? ?] ?] ?] ?]; reflexivity).
+  destruct (set_steps D' _ _ _ _ (restart_sinv _ Hs1) H2) as (_ & Hall2 & Hcov2). rewrite Hp in Hall2, Hcov2. rewrite Hq in Hcov2.
+  split; [|split].
+  - intros e He. apply in_app_or in He. destruct He as [He|He]; [exact (proj1 (Hall1 e He))|exact (proj1 (Hall2 e He))].
+  - intros e He. destruct (Hall2 e He) as [_ Hr]. lia.
+  - exact Hcov2.
+Qed.
 End ControlSet.
